@@ -19,12 +19,12 @@ func init() {
 			"(format nil|t|string-stream control args...) through ReadString+Eval with the control string and the arguments bound to " +
 			"variables, and compares the text with an independent Go renderer written from the directive definitions (own English " +
 			"speller, Roman writer, math/big digits + own sign/grouping/padding, own argument-pointer and block interpreter); ~A/~S/~@C " +
-			"are compared with princ-to-string/prin1-to-string of the same object (metamorphic). A failing case is reduced (directives, " +
+			"are compared with princ/prin1 of the same object written to a string stream (metamorphic). A failing case is reduced (directives, " +
 			"parameters, modifiers, arguments removed while the same kind of failure persists) and the signature names the reduced " +
 			"shape. A case is non-trivial when the reference defines its text and the control has a prefix parameter, a modifier, a " +
 			"block directive or at least two directives, or a bignum argument, or a ~R argument beyond +-20",
 		Assumptions: []string{
-			"princ-to-string / prin1-to-string are the printer oracle for ~A ~S ~@C (the printer itself is property C03)",
+			"princ / prin1 (written to a string stream) are the printer oracle for ~A ~S ~@C (the printer itself is property C03)",
 			"only the directives named in the statement are rendered (~A ~S ~D ~B ~O ~X ~R ~C ~% ~& ~~ ~T ~* ~? ~( ~[ ~{ ~P ~;); " +
 				"~^ ~$ ~E ~F ~G ~W ~< ~/ ~= ~| ~I ~newline are outside the statement",
 			"calls whose text the definitions do not determine (wrong argument type, too few arguments, pointer moved outside the " +
